@@ -88,6 +88,16 @@ reg("C09", "exploration",
     "property-based testing (Hypothesis) with recount oracle + matrix/linear differential across hash seeds",
     "DESIGN.md section 4 C09")
 
+reg("C05", "exploration",
+    "Hypothesis-generated coverage templates aimed at the region-splitting arithmetic (32-kb / 1024-read thresholds, "
+    "256-bp bins, valleys, last-bin valleys, short reads at sub-region edges) in both memory modes, plus flag/MAPQ "
+    "mixtures; a three-valued accounting oracle computed from BAM flags only (MUST / MUST-NOT / MAY be reported), "
+    "identical-record detection and log statistics versus BAM record counts.",
+    "Filters as documented in docs/cmd.md; reads with other alignments are MAY; two repaired defects and one known "
+    "finding listed in known_findings.jsonl.",
+    "property-based testing (Hypothesis) with structure-aimed generators and accounting oracle",
+    "DESIGN.md section 4 C05")
+
 NOT_YET = "check not built yet in this session (see DESIGN.md section 6a build order)"
 
 
